@@ -358,7 +358,8 @@ func TestC40(t *testing.T) {
 		"SCION UDP and SVC addresses in the local AS, a foreign AS, the same AS number in another ISD and ISD-AS 0, with the " +
 		"host IP in the host part or only in the next hop; no IP; no peer) x " +
 		"protocol id (generic, SCMP, niche, out-of-range) x val_time (valid, nil, invalid); level 1: x TLS auth info kind / " +
-		"certificate AS; secret value and intra-AS level 1: x all subsets of a 7-entry allow list. A case is distinct by its " +
+		"certificate AS, and behind the real TLSCryptoVerifier: real chains (subject AS x issuing CA in the own / another AS / " +
+		"another ISD / under a root in no TRC / ISD without TRC x 10 ways of being (mis-)issued or presented) x requester kind x 3 protocol ids; secret value and intra-AS level 1: x all subsets of a 7-entry allow list. A case is distinct by its " +
 		"full tuple; non-trivial = a key was handed out"
 	s := &c40State{r: r, grantsByKind: map[string]int64{}}
 	if mc.Thorough() {
@@ -701,8 +702,11 @@ func TestC40(t *testing.T) {
 		"protocol ids outside 16 bit are judged by their value as seen by the key engine (low 16 bits); id 65536 therefore " +
 			"counts as generic",
 		"the key engine is a recording stand-in that, like the real engine, cannot derive for strings that are no SCION host " +
-			"address; certificate verification itself is a stand-in (AS = common name of the leaf), C40 judges what the " +
-			"handlers do with its verdict",
+			"address; in the main products certificate verification is a stand-in (AS = common name of the leaf) and C40 judges " +
+			"what the handlers do with its verdict; in addition DRKeyLevel1 runs behind the real private/trust.TLSCryptoVerifier " +
+			"(TRC store: one base TRC for ISD 1 and 2, none for ISD 3) with real CP-PKI chains (Extra.real_verifier_*): a chain " +
+			"authenticates the AS in the subject of its AS certificate iff it is {AS, CA}, correctly signed, currently valid, has " +
+			"client-auth usage and its CA chains to a root in the TRC of the subject's ISD",
 		"a *net.TCPAddr without IP (cannot occur on an accepted connection) is exercised but grants to it are only counted " +
 			"(Extra.grants_to_tcp_peer_without_ip_not_judged)",
 	}
